@@ -150,6 +150,7 @@ type FnCtx struct {
 	usedAxioms      []string
 	attachErr       string
 	dropReturnHints bool
+	lemmaHeapValid  bool
 	usesStrLt       bool     // a byte-wise string comparison occurs: the order axioms on strings are relevant
 	dropped         []string // written loop invariants that do not attach to the current loop
 	requiresTerms   []string
@@ -206,7 +207,7 @@ func (c *FnCtx) declare(name, srt string) string {
 			}
 			c.strConsts[name] = true
 		}
-		if (strings.HasPrefix(name, "HE_any@") || strings.HasPrefix(name, "HMV_string_any@")) && c.con != nil && c.con.Flags["heapvalid"] {
+		if (strings.HasPrefix(name, "HE_any@") || strings.HasPrefix(name, "HMV_string_any@")) && ((c.con != nil && c.con.Flags["heapvalid"]) || c.lemmaHeapValid) {
 			// (only on request, flag heapvalid: one quantifier per heap version makes other proofs unstable)
 			// type invariant of the value heaps: every stored element is a valid interface value
 			idx := "Int"
